@@ -4,6 +4,7 @@ import (
 	"fmt"
 	"go/token"
 	"go/types"
+	"strings"
 
 	"golang.org/x/tools/go/ssa"
 )
@@ -46,8 +47,27 @@ func newPatchFamily(w *World, pkg *ssa.Package, tag string) *patchFamily {
 		infra("%s: jsonNodeInternals.patch not found", tag)
 	}
 	sig := m.Type().(*types.Signature)
-	for i := 0; i < sig.Params().Len(); i++ {
-		pf.roles = append(pf.roles, sig.Params().At(i).Name())
+	// roles are positions in the interface signature; the canonical names
+	// are labels (a maintainer may rename the parameters)
+	switch sig.Params().Len() {
+	case 7:
+		pf.roles = []string{"pathBehind", "pathAhead", "before", "oldValues", "newValues", "after", "strategy"}
+	case 5:
+		pf.roles = []string{"pathBehind", "pathAhead", "oldValues", "newValues", "strategy"}
+	default:
+		infra("%s: jsonNodeInternals.patch has %d parameters; 7 (v2) or 5 (v1) expected", tag, sig.Params().Len())
+	}
+	for i, role := range pf.roles {
+		want := "[]"
+		switch role {
+		case "pathBehind", "pathAhead":
+			want = "ath"
+		case "strategy":
+			want = "patchStrategy"
+		}
+		if !strings.Contains(sig.Params().At(i).Type().String(), want) {
+			infra("%s: parameter %d of jsonNodeInternals.patch has type %s, which does not fit role %s", tag, i, sig.Params().At(i).Type(), role)
+		}
 	}
 	for _, n := range w.Implementers(pkg, "jsonNodeInternals") {
 		fn := w.MethodOpt(pkg, n.Obj().Name(), "patch")
